@@ -78,6 +78,8 @@ data race (a concurrent map access is a fatal, unrecoverable runtime error).  Th
 function the model mirrors. -/
 theorem C19_parsers_touch_no_package_state :
     Pool.Gen.C19.parserStateWrites = [] ∧
+    -- the only package-level variable the order parsers mention at all is the constant zero nonce
+    Pool.Gen.C19.orderParseVars = ["ZeroNonce : Nonce"] ∧
     (∀ f ∈ ["ParseRPCBatch", "ParseRPCMatchedOrders", "ParseRPCServerAsk", "ParseRPCServerBid",
              "ParseRPCServerOrder", "parseNodeAddrs", "ParseRPCSign"], f ∈ Pool.Gen.C19.orderParseCallGraph) ∧
     (∀ f ∈ ["DecodeString", "DeserializeTicket", "deserializeOffer", "deserializeRecipient", "deserializeOrder",
